@@ -39,7 +39,7 @@ package kafka
 //@   mode bv
 //@   requires len(partitions) >= 1
 //@   let cs = ite(old(rr.ChunkSize) < 1, 1, old(rr.ChunkSize))
-//@   let idx = int(old(rr.counter) / uint32(cs)) % len(partitions)
+//@   let idx = int(uint64(old(rr.counter)) / uint64(cs)) % len(partitions)
 //@   ensures 0 <= idx && idx < len(partitions) && result == partitions[idx]
 //@   ensures rr.counter == old(rr.counter) + 1
 //@   modifies rr.counter, rr.ChunkSize
@@ -48,7 +48,7 @@ package kafka
 //@   mode bv
 //@   requires len(partitions) >= 1
 //@   let cs = ite(old(rr.ChunkSize) < 1, 1, old(rr.ChunkSize))
-//@   let idx = int(old(rr.counter) / uint32(cs)) % len(partitions)
+//@   let idx = int(uint64(old(rr.counter)) / uint64(cs)) % len(partitions)
 //@   ensures 0 <= idx && idx < len(partitions) && result == partitions[idx]
 //@   ensures rr.counter == old(rr.counter) + 1
 //@   modifies rr.counter, rr.ChunkSize
